@@ -399,7 +399,10 @@ class Environment:
         for i in ('bfgdir', 'srcdir', 'builddir'):
             setattr(env, i, Path.from_json(data[i]).as_directory())
 
-        env.backend_version = Version(data['backend_version'])
+        # An unknown version (the backend's tool wasn't found) is saved as the
+        # string 'None'.
+        env.backend_version = (Version(data['backend_version'])
+                               if data['backend_version'] != 'None' else None)
         env.install_dirs = {
             InstallRoot[k]: Path.from_json(v).as_directory() if v else None
             for k, v in data['install_dirs'].items()
